@@ -40,7 +40,7 @@ func TestVerifC19(t *testing.T) {
 		return m.API.Query(ctx, &pilosa.QueryRequest{Index: index, Query: pq})
 	}
 
-	n := r.N(400, 40000)
+	n := r.N(400, 16000)
 	r.Cases("hist", n, func(i int, id string, rng *vk.Rand) {
 		q := quanta[rng.Intn(len(quanta))]
 		noStd := rng.Chance(1, 4)
